@@ -170,6 +170,10 @@ def run_check(pid, tier, seed, workers, deadline_s=None, n_override=None, do_shr
         print("HARNESS-ERROR: %s" % e)
         return 2
     mod = load_prop(pid)
+    if os.path.isdir(REPLAY_DIR):
+        for fn in os.listdir(REPLAY_DIR):
+            if fn.startswith("%s-" % pid):
+                os.unlink(os.path.join(REPLAY_DIR, fn))
     n_cases = n_override or mod.n_cases(tier)
     if deadline_s is None:
         deadline_s = mod.DEADLINE.get(tier, 600) if hasattr(mod, "DEADLINE") else (240 if tier == "quick" else 3600)
